@@ -123,6 +123,13 @@ def _mutate(obj, how, arg):
             for k in list(obj):
                 if isinstance(obj[k], int):
                     obj[k] = (obj[k] + 1) % 7
+        elif how == "poke_vals":       # the value objects themselves are changed in place, the dict is not touched
+            hit = False
+            for v in obj.values():
+                if isinstance(v, _IndexObj):
+                    v.v = (v.v + 1) % 5
+                    hit = True
+            return hit
         else:
             return False
         return True
@@ -224,7 +231,43 @@ def _wrap(arg, how, sf=None, x=None):
         return iter(list(arg.items()))
     if how == "pairs_list":
         return list(arg.items())
+    if how == "index_obj_vals":    # a dict whose values are mutable integer-like objects (__index__, no int)
+        return {k: (_IndexObj(v) if type(v) is int else v) for k, v in arg.items()}
     return arg
+
+
+class _IndexObj:
+    """An integer-like capacity that is no int and can be changed in place (a 0-d numpy array, a
+    caller's counter object)."""
+
+    def __init__(self, v):
+        self.v = v
+
+    def __index__(self):
+        return self.v
+
+    __int__ = __index__
+
+    def __eq__(self, other):
+        return self.v == (other.v if isinstance(other, _IndexObj) else other)
+
+    def __hash__(self):
+        return hash(self.v)
+
+    def __lt__(self, other):
+        return self.v < other
+
+    def __le__(self, other):
+        return self.v <= other
+
+    def __gt__(self, other):
+        return self.v > other
+
+    def __ge__(self, other):
+        return self.v >= other
+
+    def __repr__(self):
+        return "IndexObj(%d)" % self.v
 
 
 class _StrSub(str):
@@ -243,7 +286,7 @@ class _StrTagged(str):
         return "<Element %s>" % str.__str__(self)
 
 
-NONDICT_WRAPS = ("mappingproxy", "userdict", "pairs_iter", "pairs_list")
+NONDICT_WRAPS = ("mappingproxy", "userdict", "pairs_iter", "pairs_list", "index_obj_vals")    # acceptance not judged
 
 
 _IDX = ("[C]", "[Ring1]", "[Ring2]", "[Branch1]", "[=Branch1]", "[#Branch1]", "[Branch2]", "[=Branch2]",
